@@ -717,6 +717,22 @@ def rel_matrix(case):
             fails.append(('load histogram: cycles accessor != class contents', (i, base['cycles'][i])))
         if op is None:
             terms.append('check_class %s %s %s %s %s %s %s' % (LOC, lits[i], q(a), q(me), q(u), q(l), oq(fin(r))))
+    # one accessor object read, switched to another class location and read again (use_class_right / use_class_left return the same
+    # object): amplitude, mean, upper, lower and R of that object must be mutually consistent after every switch
+    try:
+        lh = s.load_collective
+        observe_matrix(lh)
+        for sw in (['right', 'left'] if loc != 'left' else ['left', 'right']):
+            lh = lh.use_class_right() if sw == 'right' else lh.use_class_left()
+            ob = observe_matrix(lh)
+            for i in range(n):
+                a, me, u, l, r = (ob[k][i] for k in ('amplitude', 'meanstress', 'upper', 'lower', 'R'))
+                if not close(u - l, 2 * a) or not close((u + l) / 2, me) or (u != 0 and not (np.isfinite(r) and close(r * u, l))):
+                    fails.append(('load histogram: upper/lower/R inconsistent with amplitude/mean after switching the kept accessor to use_class_%s' % sw,
+                                  (i, a, me, u, l, r)))
+                    break
+    except Exception as e:   # noqa: BLE001
+        fails.append(('load histogram: switching the class location of a kept accessor raised', repr(e)))
     if op is not None:
         x = float(op['operand'])
         before = s.copy()
